@@ -179,7 +179,7 @@ def full_runs(chk):
     nif = 60 if chk.tier == "quick" else 600
     for r in range(nif):
         kind = rng.choice(["brokenpowerlaw", "brokenpowerlaw", "powerlaw", "linear", "table"])
-        feh = rng.choice([-2.0, -1.0, -0.5, 0.0, rng.uniform(-2.5, 0.5)])
+        feh = rng.choice([-2.0, -1.0, -0.5, 0.0, -2.5, -1.5, rng.uniform(-2.5, 0.5)])
         if kind == "table":
             ikw = dict(BH_method=rng.choice(["banerjee20", "banerjee20-delayed", "cosmic-rapid", "cosmic-delayed"]))
         elif kind == "linear":
@@ -212,10 +212,17 @@ def full_runs(chk):
             continue
         chk.count("IFMR relations accepted and scanned")
         chk.note_distinct(case)
-        top = min(float(obj.BH_mi.upper), 150.0)
+        top = min(float(obj.BH_mi.upper), float(rng.choice([150.0, 150.0, 250.0, 300.0])))
         grid = np.r_[np.linspace(0.7, top, 3001), [float(obj.WD_mi.upper), float(obj.BH_mi.lower), top]]
         grid = grid[grid <= top]
         mf = np.asarray(obj.predict(grid), dtype=float)
+        # a star that leaves must re-appear: the remnant mass of every progenitor inside the IFMR's range is positive
+        # (a zero would make the field drop the star silently, C02_zero_mass_skipped)
+        inr = grid <= float(obj.BH_mi.upper)
+        nonpos = np.flatnonzero(inr & ~(mf > 0))
+        if nonpos.size:
+            chk.fail("every star that leaves re-appears as a remnant: the IFMR remnant mass is positive over the whole progenitor range", case,
+                     dict(m=float(grid[nonpos[0]]), m_rem=float(mf[nonpos[0]]), n_bad=int(nonpos.size)))
         bad = np.flatnonzero(mf > grid * (1 + 1e-12))
         if bad.size:
             i = int(bad[np.argmax((mf - grid)[bad])])
